@@ -251,7 +251,41 @@ def fixed_programs():
            (A.Struct(A.Renamed("h", A.Bytes(3)), A.Renamed("x", A.Prefixed(A.Alias("Byte"), b3_range)), A.Renamed("t", A.Alias("Byte"))), {},
             [{"h": b"abc", "x": v, "t": 9} for v in v2]),
            (A.Struct(A.Renamed("n", A.Alias("Byte")), A.Renamed("x", A.FixedSized(3, nib_rest))), {}, [{"n": 1, "x": {"a": 3, "rest": bytes([1, 0] * 10)}}])]
+    out += recursive_programs() + list_adapter_programs()
     return out
+
+def recursive_programs():
+    "recursive formats (LazyBound): a linked list, a tree, a chain of length-prefixed envelopes"
+    def chain(vals):
+        node = None
+        for v in reversed(vals):
+            node = {"value": v, "next": node}
+        return node
+    lst = A.Rec("d", A.Struct(A.Renamed("value", A.Alias("Byte")), A.Renamed("next", A.If(A.Bin(">", A.T("value"), A.C(0)), A.LazyBound("d")))))
+    def tree_v(shape):
+        return {"n": len(shape), "kids": [tree_v(k) for k in shape]}
+    tree = A.Rec("t", A.Struct(A.Renamed("n", A.Rebuild(A.Alias("Byte"), A.Func("len", A.T("kids")))), A.Renamed("kids", A.Array(A.T("n"), A.LazyBound("t")))))
+    env = A.Rec("p", A.Prefixed(A.Alias("Byte"), A.Struct(A.Renamed("tag", A.Alias("Byte")), A.Renamed("inner", A.If(A.Bin("==", A.T("tag"), A.C(1)), A.LazyBound("p"))), A.Renamed("tail", A.GreedyBytes))))
+    def env_v(depth, tail):
+        return {"tag": 1 if depth else 0, "inner": env_v(depth - 1, tail) if depth else None, "tail": tail}
+    return [(lst, {}, [chain([0]), chain([5, 0]), chain([1, 2, 3, 0]), {"value": 5, "next": None}, chain([0, 7, 0]), {"value": 2}]),
+            (A.Struct(A.Renamed("h", A.Alias("Byte")), A.Renamed("l", lst), A.Renamed("t", A.Alias("Byte"))), {}, [{"h": 9, "l": chain([3, 0]), "t": 8}]),
+            (tree, {}, [tree_v([]), tree_v([[], []]), tree_v([[[]], [], [[], []]]), {"kids": [{"kids": []}]}]),
+            (env, {}, [env_v(0, b"xy"), env_v(1, b"z"), env_v(3, b""), {"tag": 1, "inner": None, "tail": b""}])]
+
+def list_adapter_programs():
+    "Indexing / Slicing around fixed and greedy lists"
+    arr = A.Array(4, A.Alias("Byte"))
+    return [(A.Indexing(arr, 4, 2, empty=0), {}, [3, 0, 255, 256, None]),
+            (A.Indexing(arr, 4, -1, empty=7), {}, [3, 0]),
+            (A.Indexing(arr, 4, 4, empty=0), {}, [3]),
+            (A.Indexing(A.GreedyRange(A.Alias("Byte")), 3, 1, empty=0), {}, [9, 0]),
+            (A.Slicing(arr, 4, 1, 3, empty=0), {}, [[2, 3], [2], [2, 3, 4], [], None, 5]),
+            (A.Slicing(arr, 4, 1, None, empty=0), {}, [[2, 3, 4], [2]]),
+            (A.Slicing(arr, 4, None, None, empty=0), {}, [[1, 2, 3, 4], [1]]),
+            (A.Slicing(arr, 4, 0, 4, 2, empty=9), {}, [[1, 2], [1], [1, 2, 3]]),
+            (A.Slicing(A.GreedyRange(A.Alias("Byte")), 3, 1, 2, empty=0), {}, [[5], [0]]),
+            (A.Struct(A.Renamed("h", A.Alias("Byte")), A.Renamed("s", A.Slicing(arr, 4, 3, 1, empty=1)), A.Renamed("t", A.Alias("Byte"))), {}, [{"h": 1, "s": [], "t": 2}, {"h": 1, "s": [8], "t": 2}])]
 
 def systematic(rng, frac=1.0, extra=()):
     """Struct(h: Bytes(hlen), x: W(L), t: Byte) for every wrapper W, leaf L and header length -- so that every class is met
